@@ -301,6 +301,20 @@ def gen_aimed_case(rng, force_dir=None, kind=None):
         c['resources'] = [r for r in c['resources'] if r['name'] != 'a'] + \
             [{'name': 'a', 'cal': ['binc', 'or', wk([0, 1, 2, 3, 4, 5, 6], ['i', 8], None, bound), wk([0, 1, 2, 3, 4, 5, 6], ['i', 8], bound + DAY, None)]}]
         c['balance'] = True
+    elif kind == 'mixed-siblings':
+        # a summary that is NOT a root, whose children mix a child that takes part in a dependency with plain leaves before
+        # and after it: the result must list them in the input order (clone wires every task, linked or not)
+        out = [T(ids[0], None, resource=None, est=None),            # root summary R
+               T(ids[1], 0, resource=None, est=None),                # P, the non-root summary
+               T(ids[2], 1, resource=res(), est=est()),              # plain leaf
+               T(ids[3], 1, resource=res(), est=est()),              # linked child
+               T(ids[4], 1, resource=res(), est=est()),              # plain leaf
+               T(ids[5], None, resource=res(), est=est())]           # X, the other end of the link
+        if rng.random() < 0.5:
+            out.insert(5, T(ids[6], 1, resource=res(), est=est()))   # one more plain leaf
+        xi = len(out) - 1
+        links = [[t_(xi), t_(3)]] if rng.random() < 0.5 else [[t_(3), t_(xi)]]
+        c['tasks'], c['links'] = out, links
     elif kind == 'tiny-share':
         # a resource with 1024 units a day and amounts of an eighth of a unit: the share of a day that a task takes is a
         # few seconds (1/8192 of a day = 10.546875 s, still a whole number of microseconds); dates must encode it exactly
@@ -720,6 +734,13 @@ def evaluate(ctx, cases, jobs=12):
     chunks = [cases[i:i + 25] for i in range(0, len(cases), 25)]
     outs = [o for part in ctx.impl_run_many('sched_impl', chunks, jobs=jobs) for o in part]
     kept = [(c, o) for c, o in zip(cases, outs) if 'offgrid' not in o]
+    if ctx.pid == 'C06':
+        for c, o in zip(cases, outs):
+            if o.get('shape_only'):
+                # a case that cannot be compared with the model (clone() changed the order) still shows the clause of C06 that
+                # needs no model: the returned WBS has the ids, hierarchy and sibling order of the input
+                ctx.failure('C06/%s/shape' % c['dir'], 'the returned WBS differs from the input in: %s' % ', '.join(o['shape_only'][:6]),
+                            {'case': c, 'observed': o})
     # a usage report with rows of tasks/resources that are not in the returned schedule cannot be related to
     # it at all (and may be arbitrarily large): such an observation is not sent to Coq, it is reported as it is
     foreign = set(i for i, (c, o) in enumerate(kept) if (o.get('obs') or {}).get('row_unknown_task_or_resource'))
@@ -789,6 +810,7 @@ def run_property(ctx, pid, fail_bits, mismatch_bits, dirs=('fwd', 'bwd'), extra=
     rng2 = _random.Random('%s/later-scenarios/%s' % (pid, ctx.seed))
     for fd in dirs:
         cases += [gen_aimed_case(rng2, fd, kind='bound-day') for _ in range(6 if ctx.tier == 'quick' else 60)]
+        cases += [gen_aimed_case(rng2, fd, kind='mixed-siblings') for _ in range(3 if ctx.tier == 'quick' else 30)]
     if extra_cases:      # a property's own additional stream (callable: drawn after the common stream)
         cases += list(extra_cases(ctx) if callable(extra_cases) else extra_cases)
     n_off = 0
